@@ -967,6 +967,13 @@ class C07(core.Check):
         for v in HOSTS:
             for t in ('/static', '/md/', '/plain/', '/proxy', '/referer'):
                 out.append(self.http('plain', 'host:redirect', 'GET', t, [['Host', v]]))
+        # redirects that echo the request-target into Location, the query holding unescaped UTF-8 octets of characters
+        # beyond Latin-1 (the response header then needs RFC 2047 or percent-encoding, under either protocol version)
+        for q in ('x=\u20ac', 'k\u0416=1&y=\U0001F600', '\u20ac'):
+            raw = q.encode('utf-8').decode('latin-1')
+            for t in ('/static', '/md', '/plain/x/..', '/proxy'):
+                for proto in ('HTTP/1.1', 'HTTP/1.0'):
+                    out.append(self.http('plain', 'redirect:raw-utf8-query', 'GET', t + '?' + raw, proto=proto))
         # -- Content-Disposition of the request itself (Entity.__init__ runs for every request)
         for v in DISPOSITIONS:
             for res, m in (('plain', 'GET'), ('upload', 'POST')):
